@@ -485,12 +485,17 @@ ST_TYPES_THOROUGH = [(1, 4, 0), (8, 8, 0), (32, 8, 2), (40, 8, 2), (41, 8, 2), (
                      (16, 16, 2), (32, 32, 0), (64, 64, 4), (40, 8, 4), (40, 8, 3), (8, 4, 1), (24, 8, 3)]
 
 
+# MemorySanitizer pass (reads of uninitialised memory): same harness, separate build; fewer types in the quick tier
+ST_MSAN_QUICK = [(41, 8, 2), (200, 8, 1)]
+
+
 def st_build(args):
-    be, typ = args
+    be, typ = args[0], args[1]
+    san = args[2] if len(args) > 2 else 'asan'
     import hashlib
     d = vbuild.cache_dir()
     n, a, k = typ
-    name = f'st_{be}_{n}_{a}_{k}'
+    name = f'st_{be}_{n}_{a}_{k}' + ('' if san == 'asan' else '_' + san)
     exe = os.path.join(d, name)
     src = os.path.join(VERIF, 'storage', 'storage.cpp')
     h = hashlib.sha256(open(src, 'rb').read()).hexdigest()[:10]
@@ -502,8 +507,9 @@ def st_build(args):
     with open(os.path.join(inc, 'types.inc'), 'w') as fh:
         fh.write(f'typedef Evt<{n}, {a}, {k}> T0;\nST_GEN(T0)\n#define ST_TYPES(X) X(T0, "Evt<{n},{a},{k}>")\n')
     import subprocess
-    cmd = ['clang++', '-std=c++17', '-O1', '-g', '-w', '-fno-access-control', '-fsanitize=address,undefined', '-fno-sanitize=function',
-           '-fsanitize-recover=address', f'-DST_BACKEND={ST_BACKENDS[be]}', f'-I{vbuild.REPO}/include', f'-I{inc}', src, '-o', exe + f'.{os.getpid()}.tmp']
+    sflags = ['-fsanitize=address,undefined', '-fno-sanitize=function', '-fsanitize-recover=address'] if san == 'asan' else \
+             ['-fsanitize=memory', '-fsanitize-memory-track-origins']
+    cmd = ['clang++', '-std=c++17', '-O1', '-g', '-w', '-fno-access-control', *sflags, f'-DST_BACKEND={ST_BACKENDS[be]}', f'-I{vbuild.REPO}/include', f'-I{inc}', src, '-o', exe + f'.{os.getpid()}.tmp']
     r = subprocess.run(cmd, capture_output=True, text=True)
     if r.returncode != 0:
         raise RuntimeError('storage build failed: ' + ' '.join(cmd) + '\n' + '\n'.join(l for l in r.stderr.split('\n') if 'error' in l)[:2000])
@@ -512,16 +518,18 @@ def st_build(args):
 
 
 def st_run(args):
-    be, typ, depth = args
+    be, typ, depth = args[0], args[1], args[2]
+    san = args[3] if len(args) > 3 else 'asan'
     import subprocess
     t0 = time.time()
-    exe = st_build((be, typ))
+    exe = st_build((be, typ, san))
     env = dict(os.environ)
     env['ASAN_OPTIONS'] = 'halt_on_error=0:detect_leaks=1:exitcode=23'
     env['UBSAN_OPTIONS'] = 'print_stacktrace=0:halt_on_error=0'
+    env['MSAN_OPTIONS'] = 'exitcode=24'
     r = subprocess.run([exe, str(depth)], capture_output=True, text=True, env=env)
     res = {'be': be, 'type': typ, 'depth': depth, 'exit': r.returncode, 'wall': time.time() - t0, 'bad': [], 'samples': [], 'sequences': 0, 'verified': 0,
-           'sanitizer': '', 'exe': exe}
+           'sanitizer': '', 'exe': exe, 'san': san}
     for line in r.stdout.split('\n'):
         if line.startswith('RESULT'):
             kv = dict(x.split('=') for x in line.split()[1:])
@@ -532,7 +540,7 @@ def st_run(args):
             res['bad'].append(line[4:])
         elif line.startswith('SAMPLE '):
             res['samples'].append(line[7:])
-    san = [l for l in r.stderr.split('\n') if 'ERROR: AddressSanitizer' in l or 'ERROR: LeakSanitizer' in l or 'runtime error' in l]
+    san = [l for l in r.stderr.split('\n') if 'ERROR: AddressSanitizer' in l or 'ERROR: LeakSanitizer' in l or 'runtime error' in l or 'MemorySanitizer' in l]
     res['sanitizer'] = '\n'.join(san[:5])
     if 'nbad' not in res:
         res['nbad'] = 1
@@ -545,14 +553,15 @@ def run_storage(pid, tier):
     t0 = time.time()
     types = ST_TYPES_THOROUGH if tier == 'thorough' else ST_TYPES_QUICK
     depth = spec['depth'][tier] if tier in spec['depth'] else spec['depth']['quick']
-    jobs = [(be, t, depth) for be in ST_BACKENDS for t in types]
+    jobs = [(be, t, depth, 'asan') for be in ST_BACKENDS for t in types]
+    jobs += [(be, t, depth, 'msan') for be in ST_BACKENDS for t in (types if tier == 'thorough' else ST_MSAN_QUICK)]
     rdir = os.path.join(VERIF, 'evidence', 'replays')
     os.makedirs(rdir, exist_ok=True)
     import glob
     for old in glob.glob(os.path.join(rdir, f'{pid}-*.json')):
         os.remove(old)
     with ProcessPoolExecutor(max_workers=16) as ex:
-        list(ex.map(st_build, [(be, t) for be, t, _ in jobs]))
+        list(ex.map(st_build, [(be, t, san) for be, t, _, san in jobs]))
         results = list(ex.map(st_run, jobs))
     nviol = 0
     reported = 0
@@ -580,10 +589,11 @@ def run_storage(pid, tier):
             'rule': spec['rule'] + f' (depth {depth}; every sequence is distinct by construction; non-trivial = all sequences, they all construct, store or destroy events)',
             'samples': [s for r in results for s in r['samples'][:1]][:8], 'exhaustive': True,
             'verified_dispatches': sum(r['verified'] for r in results),
-            'per_job': [{'backend': r['be'], 'type': 'Evt<%d,%d,%d>' % r['type'], 'depth': r['depth'], 'sequences': r['sequences'], 'bad': r['nbad'], 'wall': round(r['wall'], 2)} for r in results],
+            'per_job': [{'backend': r['be'], 'sanitizer': r['san'], 'type': 'Evt<%d,%d,%d>' % r['type'], 'depth': r['depth'], 'sequences': r['sequences'], 'bad': r['nbad'], 'wall': round(r['wall'], 2)} for r in results],
         },
         'assumptions': ['event type zoo: size x alignment x {trivial, user copy+dtor, noexcept move, throwing move, self-referential}',
-                        'clang 14 AddressSanitizer + UndefinedBehaviorSanitizer (function-pointer-type check disabled: favor_compile_time type-puns its cells by design) + LeakSanitizer are part of the oracle'],
+                        'clang 14 AddressSanitizer + UndefinedBehaviorSanitizer (function-pointer-type check disabled: favor_compile_time type-puns its cells by design) + LeakSanitizer are part of the oracle',
+                        'second pass of the same sequences under clang 14 MemorySanitizer (reads of uninitialised memory); the harness avoids non-template libstdc++ code so that the uninstrumented libstdc++.so does not blind it'],
         'wall_s': round(time.time() - t0, 2), 'violations': nviol,
     }
     with open(os.path.join(VERIF, 'evidence', f'{pid}.json'), 'w') as fh:
